@@ -32,3 +32,9 @@ VARIANTS += [
 VARIANTS += [
     M('C12', 'preexisting-outputs-not-cleaned', E(GT, "                for ref_path in self.reference_files[1]]", "                for ref_path in self.reference_files[1]\n                if ref_path not in self.snapshot]"), rule='C12-CLEANSET', key='generated_file_paths'),
 ]
+
+VARIANTS += [
+    M('C12', 'user-test-reads-the-other-home-flag', E(GT, "                        and (not (homedir and self.user_in_home)))", "                        and (not (homedir and self.cwd_in_home)))"),
+      rule='C12-DEADATTR', key='self.user_in_home'),
+    M('C12', 'refactor-home-flag-local-alias', E(GT, "                        and (not (homedir and self.user_in_home)))", "                        and (not (homedir and getattr(self, 'user_in_home'))))"), kind='refactor'),
+]
